@@ -9,7 +9,7 @@ for f in sorted(glob.glob(os.path.join(V, "seeded", "*", "meta.json"))):
     d = json.load(open(f))
     rc = d.get("recheck_on_current_tree", {})
     suffix = sid[3:]
-    rnd = {"": 1, "b": 2, "c": 3, "d": 4, "e": 5, "f": 6}.get(suffix, d.get("round", "?"))
+    rnd = {"": 1, "b": 2, "c": 3, "d": 4, "e": 5, "f": 6, "g": 7, "h": 8, "i": 9, "j": 10}.get(suffix, d.get("round", "?"))
     fc = bool(d.get("first_contact_caught"))
     first_yes += fc
     pr = per_round.setdefault(rnd, [0, 0]); pr[0] += fc; pr[1] += 1
@@ -24,7 +24,7 @@ for f in sorted(glob.glob(os.path.join(V, "seeded", "*", "meta.json"))):
     rows.append(f"| {sid} | {rnd} | {cell(d.get('summary'))} | {cell(d.get('needs_to_manifest'))[:160]} | {'yes' if fc else 'no'} | {st} |")
 hdr = ["| id | round | change | needs | first | now |", "|---|---|---|---|---|---|"]
 stats = (f"{len(rows)} changes; first contact: {first_yes} caught ("
-         + ", ".join(f"round {r}: {a}/{b}" for r, (a, b) in sorted(per_round.items(), key=lambda x: str(x[0]))) + "); now: "
+         + ", ".join(f"round {r}: {a}/{b}" for r, (a, b) in sorted(per_round.items(), key=lambda x: (not isinstance(x[0], int), x[0] if isinstance(x[0], int) else 0))) + "); now: "
          + ", ".join(f"{v} {k}" for k, v in now.items()) + ".")
 text = "\n".join(["<!-- SEEDED-TABLE:BEGIN (tools/seed_table.py) -->", stats, ""] + hdr + rows + ["<!-- SEEDED-TABLE:END -->"])
 p = os.path.join(V, "DESIGN.md")
